@@ -55,7 +55,7 @@ def _attrs(o, walk):
     except AttributeError:
         d = {}
     for k in d:
-        if k in ('_log',):
+        if k in ('_log', '_fail', 'fail'):
             continue
         out.append((k, walk(d[k])))
     for klass in type(o).__mro__:
